@@ -278,6 +278,19 @@ class UInterp(mirsym.Interp):
             st.freed.add(b.root[1])
             st.trace.append(f'free {b.root[1]}')
             return cont(st, Opaque('unit'))
+        if getattr(s, 'strict_unknown', False):
+            # a call we have no model for, on a path where only termination is acceptable: it may return or unwind
+            st.trace.append(f'calls {name} (may panic)')
+            st2 = st.clone()
+            st2.trace.append(f'{name} panics')
+            if unw is not None:
+                try:
+                    unw(st2)
+                except PathEnd as e:
+                    s.paths.append((st2, ('end', e.why)))
+            else:
+                s.paths.append((st2, ('end', 'unwind')))
+            return cont(st, Opaque('unknown-result'))
         raise Unsupported(f'extern call {name} in {f.name}')
 
     # ------------------------------------------------------------------ user code
@@ -755,6 +768,44 @@ def run_api(fns, consts, api):
         results.append({'api': name, 'fn': fn.name, 'exit': res[0], 'steps': st2.trace, 'violation': viol,
                         'pc': str(simplify(And(*st2.pc)))})
     return results
+
+
+def check_overflow_path(mir_text):
+    """Arc::clone from a count already past the limit: every path must end in process termination and nothing that
+    can panic (or return) may run between the overflow test and the abort."""
+    fns, consts = mirsym.parse_mir(mir_text)
+    cands = [f for f in fns if f.name.split('::')[-1] == 'clone' and f.params and f.params[0][1] == '&arc::Arc<T>']
+    if len(cands) != 1:
+        raise Unsupported(f'Arc::clone found {len(cands)} times in the MIR dump')
+    I = UInterp(fns, consts)
+    I.strict_unknown = True
+    st = UState()
+    c0 = BitVec('c', 64)
+    st.pc += [mirsym.UGT(c0, BitVecVal((1 << 63) - 1, 64))]
+    st.mem[('H', 'a0')] = Struct('ArcInner', [Struct('Atomic', [c0]), Opaque('payload')])
+    st.cnt['a0'] = c0
+    place = Ptr(('L', 0, 'h'))
+    st.mem[place.root] = Struct('arc::Arc<T>', [Ptr(('H', 'a0')), Opaque('zst')])
+    exits = []
+    def cont(st2, rv):
+        exits.append(('return', st2))
+    def unw(st2):
+        exits.append(('unwind', st2))
+    try:
+        I.call_fn(st, cands[0], [place], 0, cont, unw)
+    except PathEnd as e:
+        exits.append((e.why, st))
+    for st2, r in I.paths:
+        exits.append((r[1], st2))
+    out = []
+    for how, st2 in exits:
+        sol = Solver()
+        sol.add(*st2.pc)
+        if sol.check() != sat:
+            continue
+        cval = sol.model().eval(c0, model_completion=True).as_long()
+        out.append({'ends_by': how, 'steps': list(st2.trace), 'count': cval})
+    return out
 
 
 def check_abort_nostd(mir_text):
